@@ -564,3 +564,45 @@ Proof.
   intros Hb. assert (H := cmp_bc_arrQ op (fun z : Q => z) l b y Hb).
   rewrite map_map. etransitivity; [|exact H]. reflexivity.
 Qed.
+
+(** * several for clauses; sorted(key=sum) against Model/Trend.v *)
+From Verde Require Import Model.Trend.
+
+Lemma comp_concat_map' {A} f (g : A -> val) (h : A -> list val) (l : list A) :
+  (forall a, In a l -> f (g a) = Some (Some (VL (h a)))) ->
+  comp_loop CConcat f (map g l) = Some (Some (VL (flat_map h l))).
+Proof.
+  induction l as [|x t IH]; intros H; [reflexivity|].
+  cbn [comp_loop map flat_map]. rewrite (H x (or_introl eq_refl)), IH; [reflexivity|].
+  intros a Ha. apply H. right. exact Ha.
+Qed.
+
+Lemma map_flat_map {A B C} (f : B -> C) (g : A -> list B) l :
+  map f (flat_map g l) = flat_map (fun x => map f (g x)) l.
+Proof. induction l as [|x t IH]; [reflexivity|]. cbn [flat_map]. rewrite map_app, IH. reflexivity. Qed.
+
+Lemma flat_map_ext_in {A B} (f g : A -> list B) l : (forall x, In x l -> f x = g x) -> flat_map f l = flat_map g l.
+Proof.
+  induction l as [|x t IH]; intros H; [reflexivity|]. cbn [flat_map].
+  rewrite (H x (or_introl eq_refl)), IH; [reflexivity|]. intros y Hy. apply H. right. exact Hy.
+Qed.
+
+Section SortKeyed.
+Context {A : Type} (k : A -> nat) (pv : A -> val).
+Let F (c : A) : Z * val := (Z.of_nat (k c), pv c).
+
+Lemma insert_key_map x l : insert_key (Z.of_nat (k x)) (pv x) (map F l) = map F (insert_by k x l).
+Proof.
+  induction l as [|y t IH]; [reflexivity|].
+  cbn [map insert_key insert_by]. unfold F at 1. cbn [fst snd].
+  assert (E : (Z.of_nat (k x) <=? Z.of_nat (k y))%Z = (k x <=? k y)%nat).
+  { destruct (Z.leb_spec (Z.of_nat (k x)) (Z.of_nat (k y))), (Nat.leb_spec (k x) (k y)); try reflexivity; lia. }
+  rewrite E. destruct (k x <=? k y)%nat; [reflexivity|]. cbn [map]. rewrite IH. reflexivity.
+Qed.
+
+Lemma sort_keyed_map l : sort_keyed (map F l) = map F (stable_sort k l).
+Proof.
+  induction l as [|x t IH]; [reflexivity|].
+  cbn [map sort_keyed stable_sort]. unfold F at 1. rewrite IH. apply insert_key_map.
+Qed.
+End SortKeyed.
